@@ -2,7 +2,7 @@
 zero gaps, framing errors), RS232PHYTX / RS232PHYRX / RS232PHY and the full UART behind a real
 CSR bank. The oracle is the asynchronous-serial frame format (idle 1, start 0, 8 data LSB first,
 stop 1, every bit one bit period = 2**32/tuning_word system cycles)."""
-from migen import Module, Signal
+from migen import Signal
 
 from litex.soc.cores import uart as uartmod
 
@@ -236,8 +236,6 @@ def judge_rx(viol, frames, deliveries, name="uart_rx", latency=(0, 6)):
     exp = [w[2] for w in want]
     if got != exp:
         i = next((i for i, (a, g) in enumerate(zip(exp, got)) if a != g), min(len(exp), len(got)))
-        bad_del = None
-        # is it a framing-error frame that was delivered ?
         viol.add(name + "/data", "delivery %d is %s, frame on the pad carried %s (%d deliveries for %d good frames)"
                  % (i, hex(got[i]) if i < len(got) else None, hex(exp[i]) if i < len(exp) else None, len(got), len(exp)),
                  index=i, delivered=got[max(0, i - 2):i + 3], sent=exp[max(0, i - 2):i + 3],
